@@ -112,6 +112,48 @@ def kernel(k, shard_labels=0, shard=None):
     return harness
 
 
+def dense(n, shard_bits=0, shard=0, order="fwd"):
+    """Every directed graph without self loops on n concrete nodes: one solver bit per ordered pair decides whether
+    add_edge is called for it (the first shard_bits bits are fixed by the shard number); the insertion order of the
+    chosen edges is a parameter (lexicographic, reversed, or sinks first)."""
+    from jsonargparse._link_arguments import DirectedGraph
+
+    pairs = _dense_pairs(n, order)
+    fixed = [bool((shard >> b) & 1) for b in range(shard_bits)]
+
+    def harness():
+        edges = []
+        for idx, e in enumerate(pairs):
+            present = fixed[idx] if idx < shard_bits else S.flag(f"e{e[0]}{e[1]}")
+            if present:
+                edges.append(e)
+        if not edges:
+            return None
+        return _check_graph(DirectedGraph, edges)
+
+    return harness
+
+
+def _dense_pairs(n, order):
+    pairs = [(i, j) for i in range(n) for j in range(n) if i != j]
+    if order == "rev":
+        pairs = pairs[::-1]
+    elif order == "tgt":
+        pairs = sorted(pairs, key=lambda e: (e[1], -e[0]))
+    return pairs
+
+
+def _dense_edges(kwargs, values):
+    pairs = _dense_pairs(kwargs["n"], kwargs.get("order", "fwd"))
+    sb, sh = kwargs.get("shard_bits", 0), kwargs.get("shard", 0)
+    out = []
+    for idx, e in enumerate(pairs):
+        present = bool((sh >> idx) & 1) if idx < sb else bool(values.get(f"e{e[0]}{e[1]}", False))
+        if present:
+            out.append(list(e))
+    return out
+
+
 def replay_kernel(payload):
     """payload: dict(edges=[[s,t],...]) concrete node numbers."""
     from jsonargparse._link_arguments import DirectedGraph
@@ -379,12 +421,14 @@ def main(rep, tier):
     rep.functions = FUNCTIONS
     rep.rule = (
         "kernel: one path per equality pattern of the 2k symbolic node labels (= one graph with <= k edges up to "
-        "relabelling, in one insertion order); e2e: one path per (link subset, compute_fn subset) with symbolic int "
+        "relabelling, in one insertion order); dense: one path per assignment of the n(n-1) edge bits (= one labelled digraph); e2e: one path per (link subset, compute_fn subset) with symbolic int "
         "parameters; non-trivial = the assertion was evaluated on the path"
     )
     rep.stubs = ["format() of symbolic numbers yields '<sym>' (the cycle message formats node labels)"]
     rep.assumptions = [
-        "graphs with more than k edges are outside the bound (k=3 quick, k=4 thorough)",
+        "kernel: graphs with more than k edges are outside the label-pattern harness (k=3 quick, k=4 thorough); dense: every directed graph "
+        "without self loops on n concrete nodes (n=4 quick in three insertion orders; n=5 thorough, 2^20 graphs in lexicographic insertion "
+        "order) - one solver bit per ordered pair; graphs on more than n nodes with more than k edges are outside",
         "nested: three class groups, b holds a class-typed parameter `inner`; one link X.out -> b.inner.init_args.d (X in a, c) added "
         "before, between or after a solver-chosen subset of the six plain links; it counts as the edge X -> b in the cycle model",
         "e2e: class groups only (add_class_arguments), links X.out -> Y.y_X; three components; "
@@ -394,22 +438,30 @@ def main(rep, tier):
     jobs = []
     if tier == "quick":
         k = 3
-        rep.bounds = dict(kernel_edges=3, kernel_nodes=6, e2e_components=3, e2e_link_graphs=64)
+        rep.bounds = dict(kernel_edges=3, kernel_nodes=6, dense_nodes=4, dense_graphs=3 * 4096, e2e_components=3, e2e_link_graphs=64)
         jobs.append(dict(module="c16", func="kernel", kwargs=dict(k=1), timeout=60))
         jobs.append(dict(module="c16", func="kernel", kwargs=dict(k=2), timeout=60))
         for sh in range(len(_patterns(3))):
             jobs.append(dict(module="c16", func="kernel", kwargs=dict(k=3, shard_labels=3, shard=sh), timeout=120))
+        for order in ("fwd", "rev", "tgt"):
+            for sh in range(8):
+                jobs.append(dict(module="c16", func="dense", kwargs=dict(n=4, shard_bits=3, shard=sh, order=order), timeout=200))
         for names, decl, typed in ((("a", "b", "c"), ("a", "b", "c"), ()), (("a", "ab", "c"), ("ab", "c", "a"), ())):
             nb = 4 if typed else 3
             for sh in range(2 ** nb):
                 jobs.append(dict(module="c16", func="e2e", kwargs=dict(names=names, decl=decl, shard=sh, shard_bits=nb, typed=list(typed)), timeout=400))
     else:
-        rep.bounds = dict(kernel_edges=4, kernel_nodes=8, e2e_components=3, e2e_link_graphs=64, e2e_decl_orders=6, compute_fn_subsets=True)
+        rep.bounds = dict(kernel_edges=4, kernel_nodes=8, dense_nodes=5, dense_graphs=2 ** 20 + 3 * 4096, e2e_components=3, e2e_link_graphs=64, e2e_decl_orders=6, compute_fn_subsets=True)
         jobs.append(dict(module="c16", func="kernel", kwargs=dict(k=1), timeout=60))
         jobs.append(dict(module="c16", func="kernel", kwargs=dict(k=2), timeout=60))
         jobs.append(dict(module="c16", func="kernel", kwargs=dict(k=3), timeout=300))
         for sh in range(len(_patterns(4))):
             jobs.append(dict(module="c16", func="kernel", kwargs=dict(k=4, shard_labels=4, shard=sh), timeout=900))
+        for order in ("fwd", "rev", "tgt"):
+            for sh in range(8):
+                jobs.append(dict(module="c16", func="dense", kwargs=dict(n=4, shard_bits=3, shard=sh, order=order), timeout=300))
+        for sh in range(256):
+            jobs.append(dict(module="c16", func="dense", kwargs=dict(n=5, shard_bits=8, shard=sh, order="fwd"), timeout=900))
         for names in (("a", "b", "c"), ("a", "ab", "c")):
             for decl in itertools.permutations(names):
                 for sh in range(4):
@@ -436,6 +488,10 @@ def main(rep, tier):
             k = s["kwargs"]["k"]
             edges = [[v.get(f"n{2*i}", 0), v.get(f"n{2*i+1}", 0)] for i in range(k)]
             payload = dict(edges=edges)
+            r = run_native("props.c16", "replay_kernel", payload)
+            rp = dict(module="props.c16", func="replay_kernel", payload=payload)
+        elif s["harness"] == "dense":
+            payload = dict(edges=_dense_edges(s["kwargs"], v))
             r = run_native("props.c16", "replay_kernel", payload)
             rp = dict(module="props.c16", func="replay_kernel", payload=payload)
         elif s["harness"] == "nested":
